@@ -134,8 +134,8 @@ pub fn streams() -> Vec<Box<dyn AnyStream>> {
         }),
         Box::new(Stream::<Case> {
             name: "differential",
-            quick: 30_000,
-            thorough: 1_000_000,
+            quick: 50_000,
+            thorough: 4_000_000,
             source: Source::Gen(Box::new(strategy)),
             check: Box::new(check),
         }),
